@@ -21,7 +21,7 @@ from .. import sched
 PID = "C13"
 
 DOCS = [
-    ("render", "a *b* `c`\n\n- d\n- e\n\n```py first\nx\n```\n"),
+    ("render", "a *b* `c`\n\n- d\n- e\n\n```py first\nx\n```\n\n[y]: /v \"w\"\n\n[y] and ![j][y] &amp; \\* <http://a.b>\n"),
     ("render", "intro line\n# Heading\ntext\n> quote\n\n[x]: /u 't'\n\n[x] ![i](/s)\n\n~~~rb\ny\n~~~\n"),
     ("parse", "1. one\n2. two\nlazy\n\n```py\ncode\n```\n***\n"),
     ("renderInline", "~~s~~ **t** <http://x.y> &amp;"),
@@ -106,12 +106,13 @@ def one_run(job):
     md = make_md(cfg)
     run = sched.Run(md, [(api, doc, digest_of(api)) for api, doc in calls], fnid, opcodes=opcodes)
     ev = run.execute(schedule)
-    return {"ev": ev, "full": full, "solo": solo_results(cfg, calls)}, run.count, run.where, run.shared_lines
+    return {"ev": ev, "full": full, "solo": solo_results(cfg, calls)}, run.count, run.where, run.shared_lines, run.all_lines
 
 
 def plan_points(cfg, calls, opcodes=True):
     """Count events of the first call when run unpre-empted on a shared instance (planning run)."""
-    _, cnt, where, shared = one_run((cfg, calls, [], opcodes))
+    _, cnt, where, shared, alll = one_run((cfg, calls, [], opcodes))
+    shared[0]["__all__"] = sorted(set(alll[0].values()))
     return cnt, where, shared
 
 
@@ -210,7 +211,13 @@ def build_jobs(tier, rnd):
             others = [k for k in range(1, n0 + 1) if k not in inr]
             inr = sorted(inr)
             # every distinct line of the shared-object modules that the first call executes, at its first occurrence
+            everywhere = shared[0].pop("__all__")
             firsts = sorted(set(shared[0].values()))
+            if not jobs:
+                # first (configuration, pair): the first occurrence of EVERY distinct library line (state shared between
+                # calls may also live at module level, anywhere in the package)
+                firsts = sorted(set(firsts) | set(everywhere))
+                info["all_library_lines"] = len(everywhere)
             info["shared_module_lines"] = info.get("shared_module_lines", 0) + len(firsts)
             if tier == "quick":
                 others = sorted(set(rnd.sample(others, min(60, len(others))) + firsts))
